@@ -148,6 +148,7 @@ def run(repo, rep, tier):
     owned_only_after_create(repo, rep)
     values_compared_exactly(repo, rep)
     manager_id_stored_as_given(repo, rep)
+    server_refuses_referenced_delete(repo, rep)
 
     # ---- R1 ---------------------------------------------------------------
     sites = pattern_sites(repo, SM)
@@ -980,6 +981,73 @@ def values_compared_exactly(repo, rep):
     probe = ast.parse("a.value.lower() == b.lower()").body[0].value
     if not folded_value_operands(probe):
         raise AnalysisError('C18.R10 recogniser broken')
+
+
+def server_refuses_referenced_delete(repo, rep):
+    """C18.R12: the (mock) server refuses to delete a filter or a listener
+    destination that a subscription still references.  The manager checks
+    that itself only in remove_filter() / remove_destinations(); when it
+    goes away (remove_server(), remove_all_servers(), leaving the `with`
+    block) it deletes its owned instances with a plain DeleteInstance and
+    relies on the server's refusal - a subscription the manager does not
+    know about (another manager, a restarted one, a foreign client) must
+    keep its filter.  So in every provider of the subscription model except
+    the subscription provider itself, each way to the actual removal
+    (store.delete() or the inherited DeleteInstance) passes
+    validate_no_subscription() on the instance name first."""
+    from ..inline import Flat
+    SP = 'pywbem_mock/_subscriptionproviders.py'
+    r12 = rep.rule('C18.R12', 'filter / destination providers refuse the '
+                   'deletion of an instance a subscription references')
+    mod = repo.module(SP)
+    n = 0
+    for cname, cls in sorted(mod.classes.items()):
+        f = cls.methods.get('DeleteInstance')
+        if f is None:
+            continue
+        pcn = cls.consts.get('provider_classnames')
+        if pcn is not None and 'SUBSCRIPTION' in norm(pcn).upper():
+            continue
+        n += 1
+        r12.sites += 1
+        r12.functions.add(f.fq)
+        ff = Flat(f, keep=('validate_no_subscription',))
+        cfg = CFG(ff.node)
+        pname = [p_ for p_ in f.params if p_ != 'self'][0]
+
+        def simple(s_):
+            return not isinstance(s_, (ast.If, ast.For, ast.While, ast.Try,
+                                       ast.With))
+        removes = [s_ for s_ in cfg.stmts() if simple(s_) and any(
+            isinstance(c, ast.Call) and isinstance(c.func, ast.Attribute)
+            and (c.func.attr == 'delete' or
+                 (c.func.attr == 'DeleteInstance' and
+                  norm(c.func.value).startswith('super(')))
+            for c in ast.walk(s_))]
+        checks = [s_ for s_ in cfg.stmts() if simple(s_) and any(
+            isinstance(c, ast.Call) and
+            dotted(c.func) == 'self.validate_no_subscription' and
+            c.args and norm(c.args[0]) == pname
+            for c in ast.walk(s_))]
+        if not removes:
+            raise AnalysisError('%s.DeleteInstance: removal step not found'
+                                % cname)
+        for rm in removes:
+            ok = bool(checks) and cfg.path_avoiding(
+                cfg.ENTRY, rm, lambda x: x in checks) is None
+            r12.ob(ok, '%s|%s' % (f.qualname, norm(rm, 50)))
+            if not ok:
+                rep.finding(r12, f.qualname, norm(rm, 60),
+                            'unchecked-delete', SP, rm.lineno,
+                            'the instance is removed on a path that has '
+                            'not called self.validate_no_subscription(%s): '
+                            'a %s that a subscription still references is '
+                            'deleted (dangling reference; the subscription '
+                            'manager relies on this refusal when it removes '
+                            'a server)' % (pname, cname))
+    if n < 2:
+        raise AnalysisError('C18.R12: only %d referenced-object providers '
+                            'with DeleteInstance found' % n)
 
 
 def manager_id_stored_as_given(repo, rep):
